@@ -240,9 +240,16 @@ class History(RuleBasedStateMachine):
             if name in self.m.consts:
                 return
             self.m.consts.add(name)
-        else:
-            self.feats.add('side-effect-in-unselected:constant')
-        self.add({'t': 'const', 'name': name, 'e': ['num', val, 'dec']})
+            self.add({'t': 'const', 'name': name, 'e': ['num', val, 'dec']})
+            return
+        self.feats.add('side-effect-in-unselected:constant')
+        # in a branch that is not compiled the value may mention names that exist only when it is compiled (an earlier
+        # constant of the same dead branch), that exist nowhere, or a register
+        self.dead_consts = getattr(self, 'dead_consts', [])
+        pool = [['num', val, 'dec'], ['bin', '+', ['lab', 'nowhere_defined'], ['num', 1, 'dec']], ['lab', 'a']]
+        pool += [['bin', '+', ['lab', n], ['num', val, 'dec']] for n in self.dead_consts]
+        self.add({'t': 'const', 'name': name, 'e': pool[val % len(pool)]})
+        self.dead_consts.append(name)
 
     @precondition(lambda self: not self.m.dead and (self.m.labels or self.m.consts or self.m.syms))
     @rule(data=st.data())
